@@ -142,7 +142,10 @@ def body(run: Run, replay):
     #        cfg              NR NC WPV CPLX ascii perline
     plans = [("MC_Op4_q1.cfg", 3, 2, 2, 1, False, 3), ("MC_Op4_q2.cfg", 3, 2, 1, 2, True, 2), ("MC_Op4_q3.cfg", 3, 2, 1, 1, False, 3),
              ("MC_Op4_q4.cfg", 3, 2, 1, 2, False, 3), ("MC_Op4_q5.cfg", 3, 2, 2, 2, False, 3), ("MC_Op4_q6.cfg", 3, 2, 2, 1, True, 3),
-             ("MC_Op4_h1.cfg", 3, 1, 2, 1, False, 3), ("MC_Op4_h2.cfg", 3, 1, 1, 1, True, 3), ("MC_Op4_h3.cfg", 3, 1, 1, 2, False, 3)]
+             ("MC_Op4_h1.cfg", 3, 1, 2, 1, False, 3), ("MC_Op4_h2.cfg", 3, 1, 1, 1, True, 3), ("MC_Op4_h3.cfg", 3, 1, 1, 2, False, 3),
+             # exactly 65536 / 65537 rows: bigmat strings under a positive row count (Nastran's automatic switch)
+             ("MC_Op4_h4.cfg", 3, 1, 2, 1, False, 3), ("MC_Op4_h5.cfg", 3, 1, 1, 1, True, 3), ("MC_Op4_h6.cfg", 3, 1, 2, 1, True, 3),
+             ("MC_Op4_h7.cfg", 2, 1, 1, 2, False, 3)]
     if not quick:
         plans += [("MC_Op4_t1.cfg", 4, 2, 2, 1, False, 3), ("MC_Op4_t2.cfg", 3, 2, 2, 2, True, 3)]
     plans_extra = [("MC_Op4_q1.cfg", 1, 1), ("MC_Op4_q1.cfg", 1, 2), ("MC_Op4_q1.cfg", 2, 2), ("MC_Op4_q2.cfg", 2, 1), ("MC_Op4_q2.cfg", 1, 1), ("MC_Op4_q2.cfg", 2, 2)]
